@@ -3,6 +3,7 @@ module go.opentelemetry.io/collector/verifpipe
 go 1.23.0
 
 require (
+	go.opentelemetry.io/collector v0.124.0
 	go.opentelemetry.io/collector/component v1.30.0
 	go.opentelemetry.io/collector/config/configretry v1.30.0
 	go.opentelemetry.io/collector/config/configtelemetry v0.124.0
@@ -13,6 +14,7 @@ require (
 	go.opentelemetry.io/collector/pipeline v0.124.0
 	go.opentelemetry.io/collector/processor v1.30.0
 	go.opentelemetry.io/collector/processor/batchprocessor v0.0.0
+	go.opentelemetry.io/collector/processor/memorylimiterprocessor v0.0.0
 	go.opentelemetry.io/collector/receiver v1.30.0
 	go.opentelemetry.io/collector/service v0.124.0
 	go.uber.org/zap v1.27.0
